@@ -398,6 +398,9 @@ const (
 	qSetFlush   = "SET GLOBAL innodb_flush_log_at_trx_commit = ?"
 	qSetSyncBin = "SET GLOBAL sync_binlog = ?"
 	qGetReplSet = "SELECT @@GLOBAL.innodb_flush_log_at_trx_commit as InnodbFlushLogAtTrxCommit, @@GLOBAL.sync_binlog as SyncBinlog"
+	// custom replication_lag query configured by the harness (queries.replication_lag), as the
+	// project's own test configuration does: the lag value is independent of thread states
+	qCustomLag = "SELECT verif_lag AS Seconds_Behind_Master"
 )
 
 // Classify returns a short operation name and whether the statement changes server state.
@@ -453,6 +456,8 @@ func Classify(q string) (op string, mut bool) {
 		return "SET_SYNC_BINLOG", true
 	case qGetReplSet:
 		return "repl_settings", false
+	case qCustomLag:
+		return "custom_lag", false
 	}
 	if m := reReplCmd.FindStringSubmatch(q); m != nil {
 		return m[1] + "_REPLICA" + strings.ReplaceAll(m[3], " ", "_"), true
@@ -641,6 +646,15 @@ func (s *Server) Exec(w *World, c *Call) (rows *RowSet, err error, block bool) {
 		return nil, nil, false
 	case qGetReplSet:
 		return one([]string{"InnodbFlushLogAtTrxCommit", "SyncBinlog"}, int64(s.FlushLog), int64(s.SyncBinlog)), nil, false
+	case qCustomLag:
+		if !s.HasSource {
+			return &RowSet{Cols: []string{"Seconds_Behind_Master"}}, nil, false
+		}
+		var v driver.Value
+		if s.Lag != nil {
+			v = *s.Lag
+		}
+		return one([]string{"Seconds_Behind_Master"}, v), nil, false
 	}
 	if m := reStatus.FindStringSubmatch(q); m != nil {
 		if (m[1] == "REPLICA") == s.is57() {
